@@ -333,7 +333,14 @@ Section CWerr.
     - unfold rel_err. cbv zeta. unfold vmean.
       assert (Hv : vlen (map (fun t => t * c) (map exp lw)) = vlen x).
       { unfold vlen. rewrite !map_length, Hlen, Hx. reflexivity. }
-      rewrite Hv. f_equal. f_equal. f_equal. f_equal. rewrite map_map. apply map_ext. intros; simpl; ring.
+      rewrite Hv. f_equal. f_equal.
+      assert (Hvx : 2 <= vlen x).
+      { unfold vlen. rewrite Hx. change 2 with (INR 2). apply le_INR. exact Hn. }
+      (* S / n / (n - 1) in the source (two divisions: n (n - 1) would overflow int32 for n > 46341, repair F40) *)
+      rewrite map_map.
+      match goal with |- ?A / _ / _ = ?B / _ =>
+        replace A with B; [field; lra|] end.
+      f_equal. apply map_ext. intros; simpl; ring.
     - destruct lw; simpl; congruence.
     - apply sum_exp_pos; auto.
     - unfold vlen. rewrite map_length, Hlen. change 1 with (INR 1). apply lt_INR. lia.
